@@ -7,6 +7,10 @@ Clauses
               range/map/keyword: kind kept, applied per element
   lists       CascadeFilter -> product, ParallelFilter -> sum (nested, empty,
               raw-coefficient members); all-FIR lists also against the time domain
+  null_pole   lists of integer sections with exact nulls / exact poles at w = 0 (nulls and
+              poles at pi), in both orders, nested and as a branch of a bank: product / sum
+              of the member responses, nan as soon as one member's denominator vanishes
+              (a null member before it does not hide it)
   time_dft    unnormalised dft of a FIR impulse response at w == freq_response(w)
   time_sine   e^{jwn} through a FIR is scaled by freq_response(w) once n >= order
   dft_sum     dft == defining sum (exact DC bin for integer / dyadic blocks)
@@ -31,8 +35,13 @@ RULE = ("cases = (numerator, denominator built from root sections kept away from
         "root at z=1, construction route, frequency or frequency container) drawn "
         "by Hypothesis; oracle = independent fsum evaluation of "
         "sum b_k e^{-jkw} / sum a_k e^{-jkw} with the a-priori rounding bound eps, "
-        "products / sums of it for cascades / parallel banks, the defining sum for "
-        "dft; non-trivial = order >= 2 and w != 0 (filters), block length >= 2 and "
+        "products / sums of it for cascades / parallel banks (null_pole: members are "
+        "integer sections (1 - z^-R, (1 - z^-1) q(z), zero gains, 1/((1 - z^-1) q(z)), "
+        "(1 + z^-1) q(z) ...) with exact nulls / poles at w = 0 and pi, permuted, nested, "
+        "probed mostly at w = 0, each list also with its members reversed and against the "
+        "product / sum of its own members' responses), the defining sum for "
+        "dft; non-trivial = order >= 2 and w != 0 (filters; null_pole: >= 2 sections and "
+        "w != 0 or a section exactly null / nan at w), block length >= 2 and "
         "some w != 0 (dft); distinct = distinct case hash")
 ASSUMPTIONS = [
   "domain: |A(e^{-jw})| >= 1e-3 * sum|a| at the probed frequency, or A exactly 0 at w = 0 (nan expected); "
@@ -44,6 +53,8 @@ ASSUMPTIONS = [
   "empty CascadeFilter / ParallelFilter are filters (their __call__ is the identity / the zero signal), so "
   "their responses are the empty product 1 / the empty sum 0",
   "nan may be returned as a float or a complex nan",
+  "a cascade / bank is nan at w as soon as one member is nan there (0 * nan and x + nan are nan): "
+  "exact nulls of other members do not cancel a vanishing denominator",
 ]
 
 U = 2.0 ** -53
@@ -790,7 +801,9 @@ def run_linear(case):
   _, dc = call_dft(comb, case["ws"], norm)
   div = n if norm else 1
   mag = abs(al) * math.fsum(abs(v) for v in x) + abs(be) * math.fsum(abs(v) for v in y)
-  tol = 64 * (n + 4) * U * mag / div
+  # relative rounding bound plus the absolute underflow term (subnormal scalars: alpha*x[k] may
+  # underflow to 0 sample by sample while alpha*dft(x) does not)
+  tol = 64 * (n + 4) * U * mag / div + 64 * (n + 4) * 2.0 ** -1074
   worst = 0.
   for w, a_, b_, c_ in zip(ws, dx, dy, dc):
     d = abs(c_ - (al * a_ + be * b_))
@@ -802,6 +815,196 @@ def run_linear(case):
           "labels": ["blocks:" + case["kinds"], "normalize:%s" % norm,
                      "scalars:" + type(al).__name__ + "," + type(be).__name__,
                      "err<=0.1 tol" if worst <= .1 else "err>0.1 tol"]}
+
+
+# ---------------------------------------------------------------- nulls and poles on the unit circle
+#
+# Filter lists whose members are integer-coefficient sections with *exact* nulls and *exact*
+# poles at w = 0 (and nulls / poles at w = pi), in every order and nesting.  At w = 0 every
+# quantity is exact in floating point, so a member whose denominator vanishes is nan, and
+# the product / sum over the members is nan whatever the other members are - in particular
+# when an earlier member of a cascade is exactly null there (comb before integrator).
+
+_np_fac = st.sampled_from([[1, 2], [2, 1], [1, -2], [-2, 1], [1, 3], [3, -1], [1, 0, 4], [4, 0, 1]])
+
+
+@st.composite
+def _np_q(draw, maxfac=2):
+  """Integer polynomial whose roots all have modulus 2, 3, 1/2 or 1/3 (times an integer gain)."""
+  q = [draw(st.sampled_from([1, 1, 1, -1, 2, -3]))]
+  for f in draw(st.lists(_np_fac, min_size=0, max_size=maxfac)):
+    q = conv(q, f)
+  return q
+
+
+def _np_comb(lo, hi, sign=-1):
+  return st.integers(lo, hi).map(lambda r: [1] + [0] * (r - 1) + [sign])
+
+
+def _np_times(root):
+  return _np_q().map(lambda q: conv(root, q))
+
+
+_np_null0_b = st.one_of(_np_comb(1, 6), _np_times([1, -1]), _np_times([1, -2, 1]), _np_times([1, 0, -1]),
+                        st.sampled_from([[0], [0], [0, 0], [0.0], [-0.0], [0.5, 0.5, -1], [2.5, -2.5]]))
+_np_nullpi_b = st.one_of(_np_comb(1, 5, 1).filter(lambda c: len(c) % 2 == 0), _np_times([1, 1]),
+                         _np_times([1, 2, 1]))
+_np_pole0_a = st.one_of(_np_comb(1, 4), _np_comb(1, 1), _np_times([1, -1]), _np_times([1, -1]),
+                        _np_times([1, -2, 1]), st.sampled_from([[0.5, -0.5], [1.0, -1.0], [0, 1, -1]]))
+_np_polepi_a = st.one_of(_np_times([1, 1]), st.just([1, 1]))
+_np_plain_a = st.one_of(st.none(), st.none(), st.sampled_from([[1], [2], [-1], [0.5]]),
+                        _np_q().filter(lambda q: len(q) > 1))
+_np_plain_b = st.one_of(_np_q(), st.lists(st.integers(-4, 4), min_size=1, max_size=4),
+                        st.sampled_from([[1], [1, 0.5], [2], [1, 1, 1], [-1.5]]))
+
+NP_CLASSES = ["null0", "null0", "null0", "pole0", "pole0", "pole0", "nullpi", "polepi",
+              "nullpole0", "plain", "plain"]
+
+
+@st.composite
+def _np_section(draw, cls):
+  b, a = {"null0": (_np_null0_b, _np_plain_a), "nullpi": (_np_nullpi_b, _np_plain_a),
+          "pole0": (_np_plain_b, _np_pole0_a), "polepi": (_np_plain_b, _np_polepi_a),
+          "nullpole0": (_np_null0_b, _np_pole0_a), "plain": (_np_plain_b, _np_plain_a)}[cls]
+  return {"m": "filt", "f": {"b": draw(b), "a": draw(a), "fam": cls,
+                             "route": draw(st.sampled_from(["Z", "L", "expr"]))}}
+
+
+NP_FREQS = [0, 0.0, math.pi, math.pi / 2, 1, 2, 3, 6, 0.25, math.pi / 3, 2 * math.pi / 3,
+            math.pi / 4, 4, 5]
+
+
+def in_domain(fl, w):
+  try:
+    ref_list(fl, w)
+  except Reject:
+    return False
+  return True
+
+
+@st.composite
+def strat_nullpole_(draw):
+  n = draw(st.integers(2, 4))
+  classes = draw(st.lists(st.sampled_from(NP_CLASSES), min_size=n, max_size=n))
+  if draw(st.integers(0, 2)) and not ({"null0", "pole0"} <= set(classes)):
+    classes[0], classes[1] = "null0", "pole0"       # the order is drawn below
+  members = list(draw(st.permutations([draw(_np_section(c)) for c in classes])))
+  kinds = st.sampled_from(["cascade", "cascade", "parallel"])
+  ctor = st.sampled_from(["args", "args", "list"])
+  shape = draw(st.sampled_from(["flat", "flat", "nest", "nest", "branch", "branch"]))
+  if shape == "flat":
+    fl = {"m": draw(kinds), "items": members, "ctor": draw(ctor)}
+  elif shape == "nest":
+    i = draw(st.integers(0, n - 2))
+    j = draw(st.integers(i + 2, n)) if n > 2 else n
+    if i == 0 and j == n:       # keep two members at the top
+      members = members + [draw(_np_section("plain"))]
+    inner = {"m": draw(kinds), "items": members[i:j], "ctor": draw(ctor)}
+    fl = {"m": draw(kinds), "items": members[:i] + [inner] + members[j:], "ctor": draw(ctor)}
+  else:
+    # the whole chain is one branch of a bank (or one section of a longer chain)
+    inner = {"m": "cascade", "items": members, "ctor": draw(ctor)}
+    sib = draw(_np_section(draw(st.sampled_from(["plain", "plain", "null0", "pole0"]))))
+    fl = {"m": draw(st.sampled_from(["parallel", "parallel", "cascade"])),
+          "items": [inner, sib] if draw(st.booleans()) else [sib, inner], "ctor": draw(ctor)}
+  extra = draw(st.floats(.05, TWO_PI - .05))
+  ok = [w for w in NP_FREQS + [extra] if in_domain(fl, w)]      # 0 and 0.0 are always inside
+  first = draw(st.sampled_from([0, 0, 0.0, math.pi if math.pi in ok else 0, None, None]))
+  rest = draw(st.lists(st.sampled_from(ok), min_size=1 if first is None else 0, max_size=2))
+  ws = ([] if first is None else [first]) + rest
+  return {"fl": fl, "ws": ws, "scalar": len(ws) == 1 and draw(st.booleans())}
+
+
+def strat_nullpole(tier):
+  return strat_nullpole_()
+
+
+def reversed_list(fl):
+  return dict(fl, items=[reversed_list(m) if m["m"] in ("cascade", "parallel") else m
+                         for m in reversed(fl["items"])])
+
+
+def np_orders(fl, w, out, inside_parallel=False):
+  """Which orders of (exactly null member, member with a vanishing denominator) occur in the
+  cascades of this structure at w."""
+  parts = [ref_member(m, w) for m in fl["items"]]
+  if fl["m"] == "cascade":
+    nulls = [i for i, (k, h, _) in enumerate(parts) if k == "ok" and h == 0]
+    nans = [i for i, (k, _, _) in enumerate(parts) if k == "nan"]
+    if nulls and nans:
+      if min(nulls) < max(nans):
+        out.add("null before pole" + (" (in a parallel branch)" if inside_parallel else ""))
+      if min(nans) < max(nulls):
+        out.add("pole before null")
+  elif any(k == "nan" for k, _, _ in parts):
+    out.add("parallel: nan branch")
+  for m in fl["items"]:
+    if m["m"] in ("cascade", "parallel"):
+      np_orders(m, w, out, inside_parallel or fl["m"] == "parallel")
+
+
+def np_leaves(m):
+  if m["m"] in ("cascade", "parallel"):
+    return [x for y in m["items"] for x in np_leaves(y)]
+  return [m]
+
+
+def fold_members(filt, kind, w, what):
+  """The response of the list against the product / sum of the responses its own members
+  report at w (nan in any member -> nan), in the order they are in."""
+  vals = [m.freq_response(w) for m in filt]
+  got = filt.freq_response(w)
+  if any(isnan(v) for v in vals):
+    if not isnan(got):
+      raise Violation("%s at w=%r: member responses are %r (one is nan), the %s gives %r"
+                      % (what, w, vals, kind, got))
+    return
+  if kind == "cascade":
+    acc, mag = 1, 1.
+    for v in vals:
+      acc, mag = acc * v, mag * abs(v)
+  else:
+    acc, mag = 0, math.fsum(abs(v) for v in vals)
+    for v in vals:
+      acc = acc + v
+  tol = 8 * (len(vals) + 1) * U * mag
+  if isnan(got) or abs(got - acc) > tol:
+    raise Violation("%s at w=%r: member responses are %r, their %s is %r, the %s gives %r"
+                    % (what, w, vals, "product" if kind == "cascade" else "sum", acc, kind, got))
+
+
+def run_nullpole(case):
+  fl, ws = case["fl"], case["ws"]
+  base = dict(case, replace=None)
+  rec = run_lists(base)                                  # reference model, given order
+  run_lists(dict(base, fl=reversed_list(fl)))            # ... and the opposite order
+  for struct, what in ((fl, fl["m"]), (reversed_list(fl), fl["m"] + " (members reversed)")):
+    filt = build_list(struct)
+    for w in ws:
+      fold_members(filt, struct["m"], w, what)
+      for sub in filt:
+        if isinstance(sub, (CascadeFilter, ParallelFilter)):
+          fold_members(sub, "cascade" if isinstance(sub, CascadeFilter) else "parallel", w,
+                       "nested " + type(sub).__name__)
+  labels = [l for l in rec["labels"] if not l.startswith("err")]
+  orders = set()
+  special = False
+  for w in ws:
+    np_orders(fl, w, orders)
+    for m in np_leaves(fl):
+      k, h, _ = ref_member(m, w)
+      special = special or k == "nan" or h == 0
+  labels.extend(sorted(orders))
+  leaves = np_leaves(fl)
+  if any(not any(m["f"]["b"]) for m in leaves):
+    labels.append("zero gain member")
+  if any(m["f"]["fam"] == "nullpole0" for m in leaves):
+    labels.append("section 0/0 at w=0")
+  if any(w == 0 for w in ws):
+    labels.append("w=0")
+  if any(w == math.pi for w in ws):
+    labels.append("w=pi")
+  return {"nontrivial": len(leaves) >= 2 and (special or any(w != 0 for w in ws)), "labels": labels}
 
 
 CLAUSES = [
@@ -816,6 +1019,13 @@ CLAUSES = [
          floors={"cascade": .2, "parallel": .2, "nested": .05, "members=0": .01 if EMPTY_LISTS else 0.,
                  "all FIR: time domain checked": .02},
          doc="CascadeFilter response == product, ParallelFilter response == sum of member responses"),
+  Clause("null_pole", strat_nullpole, run_nullpole, quick=2500, thorough=30000,
+         floors={"null before pole": .06, "pole before null": .06,
+                 "null before pole (in a parallel branch)": .015, "parallel: nan branch": .07,
+                 "w=0": .25, "w=pi": .03, "zero gain member": .05, "section 0/0 at w=0": .04,
+                 "nested": .15, "cascade": .2, "parallel": .08},
+         doc="lists of integer sections with exact nulls / poles at w = 0 and pi, every order and nesting: "
+             "response == product / sum of the member responses, nan as soon as one member is nan"),
   Clause("time_dft", strat_fir, run_time_dft, quick=1500, thorough=20000,
          doc="dft(impulse response, [w], normalize=False)[0] == freq_response(w) for FIR filters"),
   Clause("time_sine", strat_fir, run_time_sine, quick=1500, thorough=20000,
